@@ -491,6 +491,12 @@ func (s *Server) handleSession(clientMAC net.HardwareAddr, data []byte) {
 		return
 	}
 
+	// The PPPoE payload must hold at least the PPP protocol field and must not
+	// extend beyond the received frame.
+	if int(hdr.Length) < 2 || 6+int(hdr.Length) > len(data) {
+		return
+	}
+
 	session := s.sessions.GetSession(hdr.SessionID)
 	if session == nil {
 		return
